@@ -176,10 +176,10 @@ struct BoxImpl : public BoxI {
     mpq_class q;
     typedef typename ITV::boundary_type T;
     if constexpr (std::is_floating_point<T>::value) {
-      if (x != x || x - x != 0) { std::ostringstream s; s << which << " boundary of dimension " << k << " is " << (x != x ? "NaN" : "an infinity not flagged as boundary infinity"); odd = s.str(); o.inf = true; return; }
+      if (x != x || x - x != 0) { std::ostringstream s; s << (x != x ? "nan-boundary: " : "misplaced-infinity: ") << which << " boundary of dimension " << k << " is " << (x != x ? "NaN" : "an infinity of the wrong sign"); odd = s.str(); o.inf = true; return; }
     }
     Result r = assign_r(q, x, ROUND_NOT_NEEDED);
-    if (result_class(r) != VC_NORMAL) { std::ostringstream s; s << which << " boundary of dimension " << k << " is not a finite number (assign_r result " << (int) r << ")"; odd = s.str(); o.inf = true; return; }
+    if (result_class(r) != VC_NORMAL) { std::ostringstream s; s << "not-a-number: " << which << " boundary of dimension " << k << " is not a finite number (assign_r result " << (int) r << ")"; odd = s.str(); o.inf = true; return; }
     q.canonicalize(); o.v = q;
   }
   void intervals(std::vector<Itv>& out, std::string& odd) const {
@@ -190,7 +190,9 @@ struct BoxImpl : public BoxI {
       if (o.empty) continue;
       o.lo.inf = i.lower_is_boundary_infinity(); o.hi.inf = i.upper_is_boundary_infinity();
       if (!o.lo.inf) { o.lo.open = i.lower_is_open(); read_bound(i.lower(), o.lo, "lower", k, odd); }
+      else if (!i.lower_is_open()) { std::ostringstream s; s << "closed-infinite-boundary: lower boundary of dimension " << k << " is -infinity and closed"; odd = s.str(); }
       if (!o.hi.inf) { o.hi.open = i.upper_is_open(); read_bound(i.upper(), o.hi, "upper", k, odd); }
+      else if (!i.upper_is_open()) { std::ostringstream s; s << "closed-infinite-boundary: upper boundary of dimension " << k << " is +infinity and closed"; odd = s.str(); }
     }
   }
   Constraint_System constraints() const { return b.constraints(); }
